@@ -23,6 +23,12 @@ UNIT = dict(
             ("Mutex<Vec<Waker>>", "WakerMutex"),
         ],
     ),
+    structural=[
+        dict(id="C07+C09.structure.a_fresh_flag_is_not_raised", file=F, impl="impl Default for Flag", count_in_fn="default", pattern="Self::new(false)", expect=1,
+             why="prepare_control gives every control a default flag: a ticket must not be resolved before its control ran"),
+        dict(id="C07+C09.structure.flag_new_starts_with_the_given_value_and_no_waiters", file=F, impl="impl Flag", count_in_fn="new",
+             pattern="Self(Arc::new(Inner { wakers: Mutex::new(Vec::new()), set: AtomicBool::new(value), }))", expect=1, why="see above"),
+    ],
     extract=[
         dict(id="Inner", kind="type", src=F, name="Inner"),
         dict(id="Flag", kind="type", src=F, name="Flag", drop_derive=["Clone"]),
